@@ -107,9 +107,9 @@ def build_lean(cfg, log):
     return not problems, problems, names, axioms
 
 
-def build_harness(log):
+def build_harness(log, profile=None):
     with Lock("cargo"):
-        r = sh(["cargo", "build", "--release", "--offline"], cwd=HARNESS, timeout=3600)
+        r = sh(["cargo", "build", "--offline"] + (["--profile", profile] if profile else ["--release"]), cwd=HARNESS, timeout=3600)
         log.write(r.stdout)
         if r.returncode != 0:
             errs = [l for l in r.stdout.splitlines() if l.startswith("error")]
@@ -184,7 +184,7 @@ def main(argv):
         broken.append({"kind": "proof-broken", "what": p})
 
     # 4. harness
-    h_ok, h_msg = build_harness(log)
+    h_ok, h_msg = build_harness(log, cfg.get("cargo_profile"))
     if not h_ok:
         broken.append({"kind": "harness-broken", "what": h_msg})
 
@@ -202,7 +202,7 @@ def main(argv):
             stats_path = os.path.join(work, "stats_%d.json" % gi)
             model_path = os.path.join(work, "model_%d.txt" % gi)
             with open(ops_path, "w") as f:
-                r = subprocess.run([os.path.join(HARNESS, "target", "release", "verif-harness")] + gen +
+                r = subprocess.run([os.path.join(HARNESS, "target", cfg.get("cargo_profile") or "release", "verif-harness")] + gen +
                                    ["--tier", tier, "--seed", str(seed), "--stats", stats_path],
                                    stdout=f, stderr=subprocess.PIPE, text=True, env=ENV,
                                    timeout=cfg.get("timeout", 7200))
